@@ -20,11 +20,29 @@ Definition clock_ok (pre5 : bool) (c : coll) (ops : list op) : Prop :=
     now (fst (step pre5 (final pre5 c ops1) o))
     = match o with OSetClock t => t | _ => now (final pre5 c ops1) end.
 
-(* update and replacement documents are Python dicts: no duplicate keys *)
+(* the documents and filters an operation can put into the store are Python dicts: no
+   duplicate keys in any sub-document (the values of the model are association lists) *)
+Definition fam_wf (k : fam_kind) : Prop :=
+  match k with
+  | FamDelete => True
+  | FamUpdate u _ _ => wf_value u = true
+  | FamReplace r _ _ => wf_value r = true
+  end.
+Definition req_wf (r : bulk_req) : Prop :=
+  match r with
+  | BInsert d => wf_value d = true
+  | BUpdate f u _ _ => wf_value f = true /\ wf_value u = true
+  | BReplace f r _ => wf_value f = true /\ wf_value r = true
+  | BDelete _ _ => True
+  end.
 Definition op_wf (o : op) : Prop :=
   match o with
-  | OUpdate _ u _ _ => wf_value u = true
-  | OReplace _ r _ => wf_value r = true
+  | OInsertOne d => wf_value d = true
+  | OInsertMany ds _ => Forall (fun d => wf_value d = true) ds
+  | OUpdate f u _ _ => wf_value f = true /\ wf_value u = true
+  | OReplace f r _ => wf_value f = true /\ wf_value r = true
+  | OFindAndModify f _ _ k => wf_value f = true /\ fam_wf k
+  | OBulk rs _ => Forall req_wf rs
   | _ => True
   end.
 
@@ -98,7 +116,7 @@ Proof.
   cbn [trace_all x_now]. apply andb_true_iff. split.
   - destruct o; try (unfold c02_step; destruct r; reflexivity).
     + (* update *)
-      eapply c02_step_update; [exact HI | exact Hwo | exact H1o | | | exact Es].
+      eapply c02_step_update; [exact HI | exact (proj2 Hwo) | exact H1o | | | exact Es].
       * simpl in H8o. apply negb_false_iff in H8o. exact H8o.
       * intros k d Hin Hm. simpl in H16o, H32o, H64o. split; [|split].
         -- pose proof (guard_at (fun d => negb (fits_all u d)) _ _ _ _ H16o Hin Hm) as E.
@@ -106,7 +124,7 @@ Proof.
         -- exact (guard_at (minmax_cross u) _ _ _ _ H32o Hin Hm).
         -- exact (guard_at (addtoset_cross u) _ _ _ _ H64o Hin Hm).
     + (* replace *)
-      eapply c02_step_replace; [exact HI | exact Hwo | | exact Es].
+      eapply c02_step_replace; [exact HI | exact (proj2 Hwo) | | exact Es].
       intros k d Hin Hm. simpl in H128o.
       exact (guard_at (replace_id_risk (patch f) (patch r0)) _ _ _ _ H128o Hin Hm).
   - rewrite <- Hnow.
